@@ -117,6 +117,11 @@ impl<K, V, P> Piece<K, V, P> {
         self.hash
     }
 
+    /// Return `true` if the two pieces reference the same record.
+    pub fn ptr_eq(&self, other: &Self) -> bool {
+        std::ptr::eq(self.record, other.record)
+    }
+
     /// Get the properties of the record.
     pub fn properties(&self) -> &P {
         unsafe { &*self.properties }
